@@ -100,7 +100,10 @@ impl IDateTime {
             + (self.time.to_second().second as i64);
         let mut nanosecond = self.time.subsec_nanosecond;
         second -= offset.second as i64;
-        if epoch_day < 0 && nanosecond != 0 {
+        // The sign of the instant is only known after the offset has been
+        // applied. (A civil day before the epoch can still correspond to an
+        // instant on or after it, and vice versa.)
+        if second < 0 && nanosecond != 0 {
             second += 1;
             nanosecond -= 1_000_000_000;
         }
